@@ -52,6 +52,7 @@ type GenOpts struct {
 	CloseProviderInRun int // per-mille: a client closes the provider during the run
 
 	// faults
+	PBuildCancel  int    // per-mille: Build runs on a context that is cancelled when the k-th constructor invocation is entered
 	FaultBudget   [4]int // weights for 0..3 faults
 	WFault        [4]int // weights by fault kind
 	SchedUserOnly int    // per-mille of runs with user-site-only granularity
@@ -745,6 +746,11 @@ func (g *gen) genFaults(c *Config) []*Fault {
 		case 4:
 			f.PanicVal = nil
 		}
+		fs = append(fs, f)
+	}
+	if g.t.Override == nil && g.p(StFault, o.PBuildCancel) {
+		f := &Fault{Kind: FBuildCancel, Reg: -1, N: g.n(StFault, 6)}
+		f.Err = &sentinelErr{Site: fmt.Sprintf("build-cancel@ctor#%d", f.N)}
 		fs = append(fs, f)
 	}
 	return fs
